@@ -107,10 +107,20 @@ func runSeq(initial int, ops []sop) (outs []string, desc []string, panicked stri
 			for i := range b {
 				bb[i] = dec(b[i])
 			}
-			if fmt.Sprint(a) != fmt.Sprint(bb) {
+			same := fmt.Sprint(a) == fmt.Sprint(bb)
+			// the returned slices belong to the caller: wipe them, so that an implementation that hands out a
+			// buffer it reuses is exposed by the next call
+			for i := range a {
+				a[i] = 0
+			}
+			for i := range b {
+				b[i] = nil
+			}
+			if !same {
 				outs = append(outs, "OPanic")
 				continue
 			}
+			a = bb
 			outs = append(outs, "OValues "+cw.ZL(a))
 			desc = append(desc, fmt.Sprint("values ", a))
 			// mutate the returned slice: must not affect the stack
@@ -271,7 +281,24 @@ func main() {
 				ops = append(ops, sop{"values", 0})
 			}
 		}
-		addSeq(rng.Intn(5), ops, "deep")
+		addSeq([]int{0, 1, 3, 65, 100, 200}[rng.Intn(6)], ops, "deep")
+	}
+	// grow-then-drain: large stacks (or a large initial capacity hint) emptied almost completely, with Len/Peek/Values
+	// after every few pops (capacity-driven housekeeping such as shrinking happens here if anywhere)
+	for it := 0; it < nRand/8+4; it++ {
+		depth := []int{5, 20, 70, 130, 300}[rng.Intn(5)]
+		var ops []sop
+		for v := 1; v <= depth; v++ {
+			ops = append(ops, sop{"push", v})
+		}
+		for j := 0; j < depth; j++ {
+			ops = append(ops, sop{"pop", 0})
+			if j%7 == 0 || j > depth-6 {
+				ops = append(ops, sop{"len", 0}, sop{"peek", 1 + rng.Intn(depth)}, sop{"values", 0})
+			}
+		}
+		ops = append(ops, sop{"pop", 0}, sop{"len", 0}, sop{"push", depth + 1}, sop{"values", 0})
+		addSeq([]int{0, 2, 70, 128, 500}[rng.Intn(5)], ops, "drain")
 	}
 	// container/heap differential
 	for it := 0; it < nHeap; it++ {
